@@ -592,6 +592,30 @@ fn code_let_tuple(machine: &mut Machine) -> ReturnCode {
     1
 }
 
+/// `code_let_pattern(template: int, val_code: Code(a), body_code: Code(b)) -> Code(b)`
+///
+/// Let-binding with an arbitrary destructuring pattern (records, records nested
+/// in tuples, ...). `template` is the interner id of the quoted `let`: its
+/// pattern is reused as it is, its value and body are replaced by the code
+/// values built at the macro stage.
+fn code_let_pattern(machine: &mut Machine) -> ReturnCode {
+    let template_raw = Machine::get_as::<i64>(machine.get_stack(0)) as u64;
+    let val_raw = machine.get_stack(1);
+    let body_raw = machine.get_stack(2);
+
+    let template = ExprNodeId(ExprKey::from(KeyData::from_ffi(template_raw)));
+    let Expr::Let(pattern, _, _) = template.to_expr() else {
+        panic!("code_let_pattern: the template is not a let expression");
+    };
+    let val_expr = machine.get_code(val_raw);
+    let body_expr = machine.get_code(body_raw);
+
+    let expr = expr_to_id(Expr::Let(pattern, val_expr, Some(body_expr)));
+    let code_val = machine.alloc_code(expr);
+    machine.set_stack(0, code_val);
+    1
+}
+
 /// `code_letrec(name: string, val_code: Code(a), body_code: Code(b)) -> Code(b)`
 fn code_letrec(machine: &mut Machine) -> ReturnCode {
     let name_raw = machine.get_stack(0);
@@ -1102,6 +1126,7 @@ pub fn codegen_combinator_signatures() -> Vec<ExtClsInfo> {
         ),
         mk_cls("code_let", code_let, fty(vec![s, f, f], f)),
         mk_cls("code_let_tuple", code_let_tuple, fty(vec![as_, f, f], f)),
+        mk_cls("code_let_pattern", code_let_pattern, fty(vec![i, f, f], f)),
         mk_cls("code_letrec", code_letrec, fty(vec![s, f, f], f)),
         mk_cls(
             "code_letrec_typed",
